@@ -14,12 +14,13 @@ import (
 type bufCase struct {
 	Isz  int    `json:"initialSize"`
 	Bsz  int    `json:"bufferSize"`
-	Muts string `json:"mutations"` // A = AppendBack(next number), R = RemoveFront
+	Muts string `json:"mutations"` // A = AppendBack(pointer to the next number; every third one points to 0), N = AppendBack(nil), Z = AppendBack(pointer to 0), R = RemoveFront
 }
 
+// deref: nil is recorded as -1, a non-nil element as the number it points to (which may be 0).
 func deref(p *int) int {
 	if p == nil {
-		return 0
+		return -1
 	}
 	return *p
 }
@@ -46,12 +47,19 @@ func runBuf(b *tv.Batch, c bufCase) (panicked string) {
 	}
 	obs(0)
 	for i, m := range c.Muts {
-		if m == 'A' {
+		switch m {
+		case 'A', 'Z':
 			next++
 			v := next
+			if m == 'Z' || next%3 == 0 {
+				v = 0
+			}
 			q.AppendBack(&v)
 			b.Ev("op", tv.M{"op": "append", "v": v, "n": 0, "res": 0})
-		} else {
+		case 'N':
+			q.AppendBack(nil)
+			b.Ev("op", tv.M{"op": "append", "v": -1, "n": 0, "res": 0})
+		default:
 			r := q.RemoveFront()
 			b.Ev("op", tv.M{"op": "remove", "v": 0, "n": 0, "res": deref(r)})
 		}
@@ -62,7 +70,7 @@ func runBuf(b *tv.Batch, c bufCase) (panicked string) {
 
 // allMutationStrings: every string over {A, R} of exactly length n in which
 // RemoveFront is never applied to an empty queue (shorter sequences are its prefixes).
-func allMutationStrings(n int) []string {
+func allMutationStrings(n int, pushes string) []string {
 	var out []string
 	var rec func(cur []byte, size int)
 	rec = func(cur []byte, size int) {
@@ -70,7 +78,9 @@ func allMutationStrings(n int) []string {
 			out = append(out, string(cur))
 			return
 		}
-		rec(append(cur, 'A'), size+1)
+		for _, p := range []byte(pushes) {
+			rec(append(append([]byte{}, cur...), p), size+1)
+		}
 		if size > 0 {
 			rec(append(cur, 'R'), size-1)
 		}
@@ -89,7 +99,7 @@ func randomMutations(rng *rand.Rand, n int) string {
 		pA := []int{85, 15, 50}[rng.Intn(3)]
 		for i := 0; i < phase && len(out) < n; i++ {
 			if size == 0 || rng.Intn(100) < pA {
-				out = append(out, 'A')
+				out = append(out, "AAAAANNZ"[rng.Intn(8)])
 				size++
 			} else {
 				out = append(out, 'R')
